@@ -207,7 +207,7 @@ def check_gtf_duplicates(gtf):
         handle = open(gtf, "rt")
         inner_ext = outer_ext
 
-    if inner_ext.lower() == 'gff3':
+    if inner_ext.lower() == '.gff3':
         return check_gff3_duplicates(handle)
 
     gff3_checked = False
